@@ -176,7 +176,7 @@ def witness_cases():
     late_closed = ["cfg auto=0 dial=1", "conn 1", "subin 1", "hs 1 in", "events", "accept 1", "subout 1", "hs 1 out",
                    "events", "stall 1 in", "close 1", "events", "subin 1", "hs 1 in", "events", "accept 1", "subout 1",
                    "hs 1 out", "events", "release 1 in age=1", "events", "state"]
-    dangling = ["cfg auto=0 dial=1", "conn 1", "subin 1", "hs 1 in", "events", "accept 1", "subfail 1", "events", "state",
+    dangling = ["cfg auto=0 dial=1", "conn 1", "subin 1", "hs 1 in", "events", "accept 1", "events", "subfail 1", "events", "state",
                 "open 1", "state", "events", "disc 1", "events"]
     stale_accept = ["cfg auto=0 dial=1", "conn 1", "open 1", "subin 1", "subout 1", "hs 1 in", "events", "rreset 1 out",
                     "subin 1", "hs 1 in", "accept 1", "subout 1", "hs 1 out", "events", "reject 1", "events", "disc 1",
@@ -249,6 +249,7 @@ def oracle(case, out):
     pending_req_kind = {}       # peer -> 'accept' | 'open+subin' | 'open' for the outstanding transport request
     subin_since_events = set()
     all_accepts = {}
+    last_terminal = {}
     boundary_step = {}
     round_answer = {}
     nodrain = set()
@@ -264,6 +265,21 @@ def oracle(case, out):
     final_suffix = len(case) >= 3 and case[-1] == "state" and case[-2] == "events" and case[-3].startswith("disc ")
 
     n = min(len(case), len(out))
+
+    def check_qualifying(p, upto):
+        # open_answered_once, quiescence part, in the one situation that is decidable from the outside: the request
+        # was sent for a connected peer with nothing in progress and nothing owed by the transport, it started no
+        # transport call, and no answer arrived while the connection lasted (an `events` op must follow to know).
+        i, has_call = qualifying.pop(p)
+        if has_call:
+            return
+        drains = [j for j in range(i, upto) if case[j] == "events"]
+        answered = any(e[1] == p and e[0] in ("opened", "fail") for j in drains for e in parse_events(out[j]))
+        if drains and not answered:
+            v("open-unanswered", f"open request for connected idle peer {p} at step {i} started nothing and was "
+              f"not answered while the connection lasted", i, dangling_pending_open=(p in dangling),
+              stale_conn_task=(p in taint))
+
     for i in range(n):
         op, o = case[i], out[i]
         t = op.split()
@@ -280,6 +296,10 @@ def oracle(case, out):
         if t[0] == "cfg":
             auto = 1 if "auto=1" in op else 0
             continue
+        if peer is not None and t[0] in ("subin", "open", "accept", "conn"):
+            # ops that can start a negotiation round; an event drained later may predate them
+            subin_since_events.add(peer)
+            last_terminal[peer] = False
         if t[0] == "stall":
             taint.add(peer)
         if t[0] == "conn":
@@ -287,6 +307,8 @@ def oracle(case, out):
             (nodrain.add if "drain=0" in op else nodrain.discard)(peer)
             quiet[peer] = True
         if t[0] == "disc":
+            if peer in qualifying:
+                check_qualifying(peer, i)
             connected.discard(peer)
             quiet[peer] = False
             pending_req_kind.pop(peer, None)
@@ -364,6 +386,14 @@ def oracle(case, out):
                     v("notification-while-closed", f"notification from peer {p} delivered outside an open period", i,
                       stale_conn_task=(p in taint))
         if t[0] == "events":
+            for kind, p, extra in parse_events(o):
+                if kind == "closed" or (kind == "fail" and extra != "valpending"):
+                    last_terminal[p] = p not in subin_since_events
+                elif kind in ("opened", "validate", "fail"):
+                    last_terminal[p] = False
+            for p in connected:
+                if last_terminal.get(p) and p not in subin_since_events and not view_open.get(p):
+                    quiet[p] = True
             subin_since_events.clear()
             for kind, p, extra in parse_events(o):
                 if kind in ("opened", "closed"):
@@ -384,19 +414,8 @@ def oracle(case, out):
                 v("not-closed-on-disconnect", f"connection to peer {p} lost but its open stream was never reported "
                   f"closed", last, stale_conn_task=(p in taint))
     if complete:
-        # open_answered_once, quiescence part, in the one situation that is decidable from the outside: the request
-        # was sent for a connected peer with nothing in progress and nothing owed by the transport, it started no
-        # transport call and no answer arrived while the connection lasted (an `events` op must follow to know).
-        for p, (i, has_call) in qualifying.items():
-            if has_call:
-                continue
-            first_disc = next((j for j in range(i, n) if case[j] == f"disc {p}"), n)
-            drains = [j for j in range(i, first_disc) if case[j] == "events"]
-            answered = any(e[1] == p and e[0] in ("opened", "fail") for j in drains for e in parse_events(out[j]))
-            if drains and not answered:
-                v("open-unanswered", f"open request for connected idle peer {p} at step {i} started nothing and was "
-                  f"not answered while the connection lasted", i, dangling_pending_open=(p in dangling),
-                  stale_conn_task=(p in taint))
+        for p in list(qualifying):
+            check_qualifying(p, n)
     return bad
 
 
